@@ -344,7 +344,7 @@ class Unit:
                 and mode[0] in ('eff', 'effv') and self.eff_value(st.value) is not None:
             x = st.targets[0].id
             attr, fn, ty = self.eff_value(st.value)
-            a, _ = self.expr(attr, env, 'val')
+            a = self.expr(attr, env, 'val')[0] if attr is not None else ''
             nx = self.new(x + '_')
             self.assign_log.append(x)
             return f'({m_lift(mode)} ({fn} {s} {a}) {s} (fun {nx} => {cont(s, {**env, x: (nx, ty)})}))'
@@ -440,7 +440,11 @@ class Unit:
             while tbody and isinstance(tbody[-1], ast.Assign) and isinstance(tbody[-1].value, ast.Constant):
                 hoisted.insert(0, tbody.pop())      # `x = <constant>` cannot raise: same as in the else part
             st = ast.Try(body=tbody, handlers=st.handlers, orelse=hoisted + list(st.orelse), finalbody=[])
-            body = self.protected(st.body, s, env, cur)
+            if self.spec.get('abstract_try_body'):
+                prim, reads = self.spec['abstract_try_body']
+                body = f'({prim} {" ".join(env[r][0] for r in reads)} {s})'
+            else:
+                body = self.protected(st.body, s, env, cur)
             ev = self.new('e')
             arms = m_raise(mode, ev, s1)
             for h in reversed(st.handlers):
@@ -471,6 +475,10 @@ class Unit:
                 and len(e.keywords) == 1 and e.keywords[0].arg == 'out_type' \
                 and isinstance(e.keywords[0].value, ast.Name) and e.keywords[0].value.id == 'bool':
             return (e.args[0], 'as_bool', 'bool')
+        if isinstance(e, ast.Call) and isinstance(e.func, ast.Name) and e.func.id in self.spec.get('eff_functions', {}) \
+                and len(e.args) == 1 and self.is_context_arg(e.args[0]) and not e.keywords:
+            fn, ty = self.spec['eff_functions'][e.func.id]
+            return (None, fn, ty)
         if isinstance(e, ast.Call) and isinstance(e.func, ast.Attribute) and isinstance(e.func.value, ast.Name) \
                 and e.func.value.id == 'context' and e.func.attr == 'get_formatted_value' and len(e.args) == 1 \
                 and not e.keywords:
@@ -590,7 +598,7 @@ class Unit:
         params = sig['params']
         head_args = ' '.join(f'({pn} : {pty})' for pn, pty in params)
         try:
-            fn = find_function(tree, f"{self.spec['cls']}.{name}")
+            fn = find_function(tree, f"{self.spec['cls']}.{name}" if self.spec['cls'] else name)
             got = [a.arg for a in fn.args.args if a.arg not in ('self', 'context')
                    and a.arg not in self.spec.get('callbacks', {})]
             if got != [pn for pn, _ in params]:
@@ -626,7 +634,7 @@ class Unit:
             return text
         except Untranslatable as ex:
             self.defined.append(name)
-            return (f"(* UNTRANSLATABLE {self.spec['cls']}.{name}: {ex} *)\n"
+            return (f"(* UNTRANSLATABLE {self.spec['cls'] or self.spec['file']}.{name}: {ex} *)\n"
                     f"Definition {sig['coq']}_UNTRANSLATED := tt.")
 
 
@@ -795,7 +803,22 @@ PIPELINE = {
     },
     'order': ['_run_pipeline'],
 }
-UNITS = [STEPSRUNNER, STEP, RETRY, WHILE, PIPELINE]
+PYPE = {
+    'file': 'pypyr/steps/pype.py', 'cls': None, 'section': 'GenPype',
+    'variables': [
+        ('prim_try_body', 'pype_args -> st -> R',
+         'the body of the try: new_pipe_and_args, args into context / child context, '
+         'load_and_run_pipeline, out written back (modelled by hand: two contexts)'),
+    ],
+    'attrs': {},
+    'eff_functions': {'get_arguments': ('get_arguments', 'pype_args')},
+    'abstract_try_body': ('prim_try_body', ['pype_args']),
+    'fields': {('pype_args', 'raise_error'): ('pa_raise', 'bool')},
+    'ctors': {}, 'obj_methods': {},
+    'methods': {'run_step': {'kind': 'eff', 'coq': 'gen_pype_run_step', 'params': []}},
+    'order': ['run_step'],
+}
+UNITS = [STEPSRUNNER, STEP, RETRY, WHILE, PIPELINE, PYPE]
 
 
 def pure_call_hook(unit):
@@ -853,7 +876,7 @@ def main():
         for name in spec['order']:
             text = unit.method(tree, name)
             bad += 'UNTRANSLATED' in text
-            lines.append(f"(* source: {spec['file']} :: {spec['cls']}.{name} *)")
+            lines.append(f"(* source: {spec['file']} :: {(spec['cls'] + '.') if spec['cls'] else ''}{name} *)")
             lines.append(text)
             lines.append('')
         lines.append(f"End {spec['section']}.")
